@@ -6,10 +6,10 @@ if [ -n "$(git status --porcelain --untracked-files=no)" ]; then echo "/repo not
 git apply "$patch" || { echo "patch does not apply" >&2; exit 2; }
 cd /verif
 for id in "$@"; do
-  ./check $id > /tmp/seedtest-$id.log 2>&1
+  ./check $id > /var/tmp/seedtest-$id.log 2>&1
   rc=$?
   echo "$id exit=$rc"
-  grep "^VIOLATION\|^KNOWN" /tmp/seedtest-$id.log | cut -c1-220
-  [ $rc -eq 2 ] && grep "INCONCLUSIVE" /tmp/seedtest-$id.log | head -3 | cut -c1-300
+  grep "^VIOLATION\|^KNOWN" /var/tmp/seedtest-$id.log | cut -c1-220
+  [ $rc -eq 2 ] && grep "INCONCLUSIVE" /var/tmp/seedtest-$id.log | head -3 | cut -c1-300
 done
 git -C /repo checkout -- .
